@@ -277,6 +277,29 @@ def gen(repo):
     stt = cxxscan.function_body(src, "start")
     max_wq = int(need(r"config\.maxWriteQueue\s*=\s*(\d+)\s*;", stt, "start(): config.maxWriteQueue").group(1))
 
+    # FC16f: the three arms outside the normal path clear the body for a HEAD request (decided from the raw bytes), after Content-Length was set
+    ihr = None
+    try:
+        ihr = cxxscan.function_body(src, "isHeadRequest", signature_contains="const std::string &requestData")
+    except cxxscan.ScanError:
+        pass
+    strip_sh = re.search(r"shutdownRes\.setHeader\(\"Content-Length\",[^;]*;\s*shutdownRes\.setHeader\(\"Connection\",\s*\"close\"\)\s*;\s*if\s*\(\s*isHeadRequest\(requestData\)\s*\)\s*\{\s*shutdownRes\.body\.clear\(\)\s*;\s*\}", sh, re.S)
+    strip_ea = re.search(r"errorRes\.body\s*=\s*getStatusText\(errStatus\)\s*;\s*errorRes\.setHeader\(\"Content-Length\",[^;]*;\s*if\s*\(\s*isHeadRequest\(requestData\)\s*\)\s*\{\s*errorRes\.body\.clear\(\)\s*;\s*\}", ea, re.S)
+    ser0 = cxxscan.function_body(src, "sendErrorResponse")
+    strip_ser = re.search(r"errorRes\.setHeader\(\"Server\",[^;]*;\s*if\s*\(\s*headRequest\s*\)\s*\{\s*errorRes\.body\.clear\(\)\s*;\s*\}\s*auto\s+errorResponseData", ser0, re.S)
+    call_head = re.search(r"sendErrorResponse\(\s*sid\s*,\s*\d+\s*,\s*\"[^\"]*\"\s*,\s*\"[^\"]*\"\s*,\s*isHeadRequest\(requestData\)\s*\)\s*;", cxxscan.function_body(src, "handleIncomingData"), re.S)
+    sig_head = re.search(r"void\s+sendErrorResponse\(SessionId\s+sid,\s*int\s+statusCode,\s*const\s+std::string\s*&statusText,\s*const\s+std::string\s*&body\s*=\s*\"\",\s*bool\s+headRequest\s*=\s*false\)", src, re.S)
+    parts = [bool(strip_sh), bool(strip_ea), bool(strip_ser), bool(call_head), bool(sig_head), ihr is not None]
+    if all(parts):
+        need(r"^\s*return\s+requestData\.compare\(0,\s*5,\s*\"HEAD \"\)\s*==\s*0\s*;\s*$", ihr, "isHeadRequest: raw request starts with `HEAD `")
+        if len(re.findall(r"isHeadRequest\(", src)) != 4 or len(re.findall(r"\bheadRequest\b", src)) != 2:
+            raise TranslateError("isHeadRequest / headRequest: unexpected number of uses")
+        error_arms_strip_head = True
+    elif not any(parts) and "isHeadRequest" not in src and "headRequest" not in src:
+        error_arms_strip_head = False
+    else:
+        raise TranslateError("HEAD strip on the arms outside the normal path: present in some places only (shutdown %s, error arm %s, sendErrorResponse %s, overflow call %s, signature %s, helper %s)" % tuple(parts))
+
     # stop() / start() on one object: stop() gives up on running handlers after a bounded wait and resets the transport; start() clears
     # _shutdown and installs a fresh Transport (its engine numbers sessions from 1 again); the pool and its tasks survive
     stp = cxxscan.function_body(src, "stop")
@@ -319,7 +342,7 @@ def gen(repo):
     # pool overflow
     hid = cxxscan.function_body(src, "handleIncomingData")
     ov = need(r"if\s*\(\s*!\s*_threadPool\.tryEnqueue\(\s*\[this,\s*sid,\s*requestData(?:,\s*epoch)?(?:,\s*haveUpgrade)?\]\(\)\s*\{\s*processHttpRequest\(sid,\s*requestData(?:,\s*epoch)?(?:,\s*haveUpgrade)?\)\s*;\s*\}\s*\)\s*\)\s*\{(.*?)\}\s*else\s+if", hid, "tryEnqueue dispatch").group(1)
-    ovm = need(r"sendErrorResponse\(\s*sid\s*,\s*(\d+)\s*,\s*\"([^\"]*)\"\s*,\s*\"([^\"]*)\"\s*\)\s*;", ov, "overflow response")
+    ovm = need(r"sendErrorResponse\(\s*sid\s*,\s*(\d+)\s*,\s*\"([^\"]*)\"\s*,\s*\"([^\"]*)\"\s*(?:,\s*isHeadRequest\(requestData\)\s*)?\)\s*;", ov, "overflow response")
     ser = cxxscan.function_body(src, "sendErrorResponse")
     ser_hdrs = set_headers(ser, "errorRes")
     if [(k, v) for k, v, _ in ser_hdrs if v is not None][:2] != [("Content-Type", "text/plain"), ("Connection", "close")] or \
@@ -399,5 +422,7 @@ def gen(repo):
     t += "def stopDrainSeconds : Nat := %d\n" % drain_s
     t += "/-- the task handed to the pool (`[this, sid, requestData]`) also carries and checks the identity of the transport its request\n    arrived on (false: it addresses its commands by session id only) -/\n"
     t += "def dispatchChecksGeneration : Bool := %s\n" % ("true" if dispatch_checks_generation else "false")
+    t += "/-- the error arm, the shutdown arm and `sendErrorResponse` clear the body when `isHeadRequest(requestData)` (raw request starts with\n    `HEAD `), after Content-Length was set (true); false: they never look at the method (the code before FC16f) -/\n"
+    t += "def errorArmsStripHead : Bool := %s\n" % ("true" if error_arms_strip_head else "false")
     t += "end Iora.Gen.HttpRespond\n"
     return "IoraModel/Gen/HttpRespond.lean", t
